@@ -34,6 +34,9 @@ CLAIMED = {
     "C19": dict(
         text="Theorems over the driver model whose order of effects is regenerated from idlc/src/main.rs each run (all opens after the last validation pass and after generation, create+truncate on every open, marking before content): a rejected input has no effect on the file system; an accepted single-file run leaves exactly marking ++ content in the named file whatever it held before and touches nothing else; the Rust generator's lower-cased file keys collapse case-colliding interfaces (refutation witness = known finding). Tie: the real binary in scratch directories with pre-existing targets and bystanders, one rejected variant per stage, listing/bytes/mtimes compared; Rust file names against the model and the Spec.",
         ref="7 (C19)", technique="Coq proof over an effect model instantiated with regenerated DriverFacts + before/after file-system snapshots of the real binary"),
+    "C17": dict(
+        text="Theorems: the transcribed range check of Primitive::new (radix detection, str::replace of 0x, from_str_radix with its sign and width rules) accepts an integer constant iff its mathematical value lies in the range of the declared type and unsigned types carry no sign - for every hexadecimal, decimal, negative and fractional literal the grammar admits, of any length; without leading zeros the C reading of the pasted literal is its mathematical value, with leading zeros it is not (witness). Tie: exhaustive boundary neighbourhoods of all eight integer types in every literal form through the real parser against model and Spec (Coq-evaluated), and every accepted constant compiled and printed by gcc, clang, g++, clang++, rustc and javac (value; declared type in C++ and Rust).",
+        ref="7 (C17)", technique="Coq proof of range-check exactness over all literals + exhaustive boundary sweep through the real parser + compiled value probes in four languages"),
 }
 NOTE = ("Trusted: Coq 8.16.1 kernel (vm_compute used; no native_compute), no axioms; lib/translate.py; the harness crate; "
         "python driver and scrapers. Modelled rather than verified: all of /repo (theorems are about coq/theories; the tie is "
